@@ -187,8 +187,8 @@ UNITS += [
              Rw("", "", count=None, kind="log", why="logging removed"),
              Rw("", "", count=None, kind="maperr", why=".map_err(<error building closure>) -> .vmap_err()"),
              Rw("dest.create_dir(path)", "dest.vcreate_dir(path, Ghost(dry_run))", why="LocalDestination::create_dir -> effectful stub: REQUIRES !dry_run"),
-             Rw(r"match restore_infos\.hardlink_candidates\.entry\(key\) \{\s*std::collections::btree_map::Entry::Vacant\(entry\) => \{\s*_ = entry\.insert\((?P<v>[^;]*?)\);\s*\}\s*std::collections::btree_map::Entry::Occupied\(_\) => return Ok\(\(\)\),[^\n]*\n\s*\}",
-                r"if restore_infos.hardlink_candidates.vcontains(&key) { return Ok(()); } else { restore_infos.hardlink_candidates.vinsert(key, \g<v>); }", regex=True,
+             Rw(r"match restore_infos\.hardlink_candidates\.entry\(key\) \{\s*std::collections::btree_map::Entry::Vacant\(entry\) => \{\s*_ = entry\.insert\((?P<v>[^;]*?)\);(?P<rest>[^}]*)\}\s*std::collections::btree_map::Entry::Occupied\(_\) => return Ok\(\(\)\),[^\n]*\n\s*\}",
+                r"if restore_infos.hardlink_candidates.vcontains(&key) { return Ok(()); } else { restore_infos.hardlink_candidates.vinsert(key, \g<v>); \g<rest> }", regex=True,
                 why="BTreeMap entry API (Vacant => insert, Occupied => return) -> contains / insert on a ghost map"),
              Rw("path.clone()", "vclone_path(path)", count=None, why="PathBuf::clone"),
              Rw("restore_infos.add_file(dest, node,", "restore_infos.add_file(&*dest, node,", why="reborrow of the destination"),
